@@ -65,7 +65,7 @@ def run_versions(ch):
     nneed = ch.pick('requirements', [2, 0, 1, 3])
     naux = ch.pick('auxiliaries', [1, 2, 4])
     mode = ch.pick('displacements', ['dense', 'padded', 'aux_after', 'aux_gap'])
-    idxmode = ch.pick('indices', ['contiguous', 'sparse', 'reserved', 'duplicate', 'zero_other'])
+    idxmode = ch.pick('indices', ['contiguous', 'sparse', 'reserved', 'duplicate', 'zero_other', 'descending', 'shuffled'])
     flagmode = ch.pick('flags', ['typical', 'all_ones', 'zero'])
     nameplace = ch.pick('name_offsets', ['middle', 'start', 'last'])
     nsym = ch.pick('versym_length', [6, 0, 1, 40])
@@ -83,6 +83,10 @@ def run_versions(ch):
             return (2, 0xff00, 0xff01, 0xffff, 3, 4, 6, 7)[k % 8]
         if idxmode == 'duplicate':
             return 2 + (k // 2)
+        if idxmode == 'descending':         # layout order is not index order: lookups must follow the chain to its end
+            return 40 - k
+        if idxmode == 'shuffled':
+            return (2, 9, 4, 3, 8, 5, 7, 6)[k % 8] + (k // 8) * 8
         return 2 + k
     fl = {'typical': (0, 1, 2), 'all_ones': (0xffff,) * 3, 'zero': (0,) * 3}[flagmode]
     # --- definitions
